@@ -65,6 +65,7 @@ type recipe struct {
 	truncTkt   int // bytes to keep, -1 all
 	flipAuth   int
 	truncAuth  int
+	authData   types.AuthorizationData // sealed authorization data (nil: none)
 	trailer    bool // an unsealed EncTicketPart travels after enc-part (Ticket.Unmarshal fills DecryptedEncPart from it)
 }
 
@@ -114,6 +115,9 @@ func mint(c *Ctx, r recipe) minted {
 	}
 	if forcedAuthData != nil {
 		etp.AuthorizationData = forcedAuthData
+	}
+	if r.authData != nil {
+		etp.AuthorizationData = r.authData
 	}
 	b, err := asn1.Marshal(etp)
 	if err != nil {
